@@ -222,11 +222,13 @@ class Interp:
                     self.fail(e, 'axis of the concatenation is not a constant')
                 if cat[1] == 'below':
                     return replace(d, dist=f'{d.dist}-concatenated-along-axis-0')
-                if isinstance(m, Neg) and m.of == d:
+                # the mirror image of the very array it stands beside: two calls of a random generator are two different arrays
+                same = isinstance(m, (Neg, OneMinus)) and (m.of is d or (m.of == d and d.source == 'halton'))
+                if isinstance(m, Neg) and same:
                     good = d.sym or d.dist == 'normal'
                     return replace(d, anti=True, count=Count('N') if d.count == 'N/2' else Count(f'2*({d.count})'),
                                    dist=d.dist if good else f'{d.dist}-mirrored-with-minus-on-[0,1]')
-                if isinstance(m, OneMinus) and m.of == d:
+                if isinstance(m, OneMinus) and same:
                     good = not d.sym and d.dist == 'uniform'
                     return replace(d, anti=True, count=Count('N') if d.count == 'N/2' else Count(f'2*({d.count})'),
                                    dist=d.dist if good else f'{d.dist}-mirrored-with-1-minus')
@@ -276,6 +278,20 @@ def run(ctx: Ctx) -> None:
     nd = prog.module(ND)
     table = nd.assigns.get('native_random_number_generators')
     ctx.need(isinstance(table, ast.Dict), 'native_draws.native_random_number_generators is a dict literal')
+    # the literal is the catalogue only if nothing stores into it afterwards
+    for m_ in prog.modules.values():
+        for x in ast.walk(m_.tree):
+            tgt = None
+            if isinstance(x, ast.Subscript) and isinstance(x.ctx, (ast.Store, ast.Del)):
+                tgt = x.value
+            elif isinstance(x, ast.AugAssign):
+                tgt = x.target
+            elif isinstance(x, ast.Call) and isinstance(x.func, ast.Attribute) and x.func.attr in ('update', 'pop', 'popitem', 'clear', 'setdefault', '__setitem__', '__delitem__'):
+                tgt = x.func.value
+            if tgt is not None and (dotted(tgt) or '').split('.')[-1] == 'native_random_number_generators':
+                raise AnalysisError(f'C11: the catalogue native_random_number_generators is changed after its definition ({m_.path}:{x.lineno}): the literal is not the catalogue')
+    n_defs = sum(1 for x in ast.walk(nd.tree) if isinstance(x, ast.Name) and x.id == 'native_random_number_generators' and isinstance(x.ctx, (ast.Store, ast.Del)))
+    ctx.need(n_defs == 1, 'native_draws.native_random_number_generators is bound once')
     interp = Interp(ctx)
     seen_features: dict[str, Draws] = {}
     for k, v in zip(table.keys, table.values):
@@ -390,6 +406,26 @@ def _assigns_to(f: FuncInfo, name: str) -> list[ast.Assign]:
     return out
 
 
+def _other_stores_to(f: FuncInfo, name: str) -> list[ast.stmt]:
+    """the statements that change `name` and are not plain assignments: x += ..., x: T = ..., x[...] = ..., for x in ..., an
+    in-place operator method or ufunc with out=x"""
+    out = []
+    for n in walk_no_nested(f.node):
+        if isinstance(n, (ast.AugAssign, ast.AnnAssign)) and unparse(n.target) == name:
+            out.append(n)
+        elif isinstance(n, ast.AugAssign) and isinstance(n.target, ast.Subscript) and unparse(n.target.value) == name:
+            out.append(n)
+        elif isinstance(n, ast.Assign) and any(isinstance(t, ast.Subscript) and unparse(t.value) == name for t in n.targets):
+            out.append(n)
+        elif isinstance(n, ast.Assign) and any(isinstance(t, (ast.Tuple, ast.List)) and any(unparse(x) == name for x in ast.walk(t) if isinstance(x, ast.Name)) for t in n.targets):
+            out.append(n)
+        elif isinstance(n, ast.For) and any(isinstance(x, ast.Name) and x.id == name for x in ast.walk(n.target)):
+            out.append(n)
+        elif isinstance(n, ast.Expr) and isinstance(n.value, ast.Call) and any(k.arg == 'out' and unparse(k.value) == name for k in n.value.keywords):
+            out.append(n)
+    return out
+
+
 def _base_generators(ctx: Ctx) -> None:
     prog = ctx.prog
     for fname in ('get_uniform', 'get_latin_hypercube_draws', 'get_halton_draws'):
@@ -415,6 +451,8 @@ def _base_generators(ctx: Ctx) -> None:
             # nothing rescales the array after the symmetric map
             later = [s for s in _assigns_to(f, tgt) if seq(s) > seq(a)]
             ok = ok and not later
+            # (x = x * c is read as x *= c by the normal form; an item store or an in-place operation changes the array as well)
+            ok = ok and not [s for s in _other_stores_to(f, tgt) if getattr(s, 'lineno', 0) > a.lineno]
         ctx.add('C11.R2', f'draws.{fname}:symmetric', ok, (f.file, hits[0].lineno if hits else f.line),
                 f'symmetric variant of {fname} is the map 2u-1 of the returned array' if ok else f'symmetric branch of {fname} is not `x = 2x-1` on the returned array: {det}', det)
     for fname in ('get_uniform', 'get_latin_hypercube_draws', 'get_halton_draws', 'get_normal_wichura_draws'):
@@ -463,8 +501,24 @@ def _base_generators(ctx: Ctx) -> None:
                 mir = equal(ts_(b_), 1 - ts_.sym(unparse(a_)))
             except AnalysisError:
                 mir = False
-            # the blocks are (sample, draws): only axis 0 (also the default, also -2) puts the mirror images below the generated block
-            if mir and cat_[1] == 'below':
+            # the blocks are (sample, draws): only axis 0 (also the default, also -2) puts the mirror images below the generated block.
+            # That is a fact only when the blocks are the generated array itself (a name defined once, by the call of the generator: not
+            # its transpose, not a slice) and the stacked array is what is returned (as it is, reshaped or copied: a transposition,
+            # a split ... of the result may well put the halves side by side again)
+            src_ = _assigns_to(f, unparse(a_)) if isinstance(a_, ast.Name) else []
+            plain = len(src_) == 1 and isinstance(src_[0].value, ast.Call) and unparse(src_[0].value.func) == 'uniform_draws' and not any(
+                isinstance(x, (ast.Attribute, ast.Call, ast.Subscript)) for x in ast.walk(b_))
+            from ..core import inline_locals as _inl
+
+            rv = _inl(f.node, rets[0].value) if len(rets) == 1 and rets[0].value is not None else None
+            while rv is not None and unparse(rv) != unparse(_inl(f.node, cc)):
+                if isinstance(rv, ast.Call) and isinstance(rv.func, ast.Attribute) and rv.func.attr == 'reshape':
+                    rv = rv.func.value
+                elif isinstance(rv, ast.Call) and (dotted(rv.func) or '') in ('np.ascontiguousarray', 'np.asarray', 'np.array', 'np.copy') and len(rv.args) == 1 and not rv.keywords:
+                    rv = rv.args[0]
+                else:
+                    rv = None
+            if mir and cat_[1] == 'below' and plain and rv is not None:
                 stacked = f'{unparse(cc)[:80]}: the mirror images are concatenated along axis 0 (below the generated block), not beside it: observation i no longer receives its draws followed by their mirror images'
     ctx.add('C11.R2', 'draws.get_antithetic', ok if (ok or stacked) else None, f, 'returns (d, 1-d) along axis 1 with d = uniform_draws(sample_size, int(n/2))' if ok else (stacked or f'antithetic construction not recognised: {det}'), det, positive=bool(stacked))
     # normal antithetic
@@ -505,6 +559,8 @@ def _base_generators(ctx: Ctx) -> None:
         try:
             lo, hi = ts(inline_locals(f.node, s.lower)), ts(inline_locals(f.node, s.upper))
             ok = equal(lo, ts.sym('skip') + 1) and equal(hi - lo, ts.sym('number_of_draws') * ts.sym('sample_size')) and s.step is None
+            # ... of the parameters as they arrived: none of them is re-bound (skip = skip + 1 is read as skip += 1)
+            ok = ok and not any(isinstance(x, ast.Name) and isinstance(x.ctx, (ast.Store, ast.Del)) and x.id in ('skip', 'number_of_draws', 'sample_size', 'base') for x in walk_no_nested(f.node))
         except AnalysisError:
             ok = False
     ctx.add('C11.R2', 'draws.get_halton_draws:skip', ok, (f.file, sl[0].lineno if sl else f.line),
@@ -587,8 +643,13 @@ def _as241(ctx: Ctx) -> None:
     if b is None:
         return
     consts = {}
+    n_stores: dict = {}
+    for x in walk_no_nested(f.node):
+        if isinstance(x, ast.Name) and isinstance(x.ctx, (ast.Store, ast.Del)):
+            n_stores[x.id] = n_stores.get(x.id, 0) + 1
     for st in f.body:
-        if isinstance(st, ast.Assign) and len(st.targets) == 1 and isinstance(st.targets[0], ast.Name):
+        # (a name stored more than once - c3 = c3 * 1.01 after the literal - is not the constant of its first assignment)
+        if isinstance(st, ast.Assign) and len(st.targets) == 1 and isinstance(st.targets[0], ast.Name) and n_stores.get(st.targets[0].id) == 1:
             try:
                 v = const_value(st.value)
             except ValueError:
@@ -630,29 +691,69 @@ def _as241(ctx: Ctx) -> None:
             ok = got == float(AS241[pub])
             ctx.add('C11.R3', f'AS241.{pub}', ok, (f.file, consts[pub][1]), f'{pub} = {got!r}' + ('' if ok else f', published {AS241[pub]!r}'), detail=f'{pub}={got!r}')
     Q = b['_Q']
+    from ..core import inline_locals
+
+    FLIP = {'LtE': 'Gt', 'Gt': 'LtE', 'Lt': 'GtE', 'GtE': 'Lt'}  # complement of a comparison
+    MIRROR = {'LtE': 'GtE', 'GtE': 'LtE', 'Lt': 'Gt', 'Gt': 'Lt'}  # the same comparison read from the other side
+    SYM = {'LtE': '<=', 'Lt': '<', 'Gt': '>', 'GtE': '>='}
+
+    def is_abs(x):
+        return isinstance(x, ast.Call) and (dotted(x.func) or '') in ('abs', 'np.abs', 'numpy.abs', 'np.absolute', 'numpy.absolute', 'np.fabs', 'numpy.fabs') and len(x.args) == 1 and not x.keywords
+
+    def norm(x):
+        """(abs call, op, threshold node, threshold value) of a mask `abs(ARG) OP constant` - written from either side, or as the
+        complement (~m, np.logical_not(m), np.invert(m)) of such a mask; None when the mask has another form"""
+        if isinstance(x, ast.UnaryOp) and isinstance(x.op, ast.Invert):
+            r = norm(x.operand)
+            return None if r is None else (r[0], FLIP[r[1]], r[2], r[3])
+        if isinstance(x, ast.Call) and (dotted(x.func) or '') in ('np.logical_not', 'numpy.logical_not', 'np.invert', 'numpy.invert', 'np.bitwise_not', 'numpy.bitwise_not') and len(x.args) == 1 and not x.keywords:
+            r = norm(x.args[0])
+            return None if r is None else (r[0], FLIP[r[1]], r[2], r[3])
+        if not (isinstance(x, ast.Compare) and len(x.ops) == 1 and type(x.ops[0]).__name__ in FLIP):
+            return None
+        op = type(x.ops[0]).__name__
+        lhs, rhs = x.left, x.comparators[0]
+        if is_abs(rhs) and not is_abs(lhs):
+            lhs, rhs, op = rhs, lhs, MIRROR[op]
+        if not is_abs(lhs):
+            return None
+        try:
+            thr = float(const_value(rhs))
+        except ValueError:
+            c = consts.get(unparse(rhs)) if n_stores.get(unparse(rhs), 0) == 1 else None
+            thr = c[0] if c else None
+        if thr is None:
+            return None
+        return lhs, op, rhs, thr
+
+    q_def = unparse(inline_locals(f.node, ast.Name(id=Q, ctx=ast.Load())))
 
     def region(key: str, what: str, want_op: str):
         e = b[key][1]
         txt = unparse(e)
-        ok = False
-        arg = thr = op = None
-        if isinstance(e, ast.Compare) and len(e.ops) == 1 and isinstance(e.left, ast.Call) and (dotted(e.left.func) or '').endswith('abs') and len(e.left.args) == 1:
-            arg = unparse(e.left.args[0])
-            op = type(e.ops[0]).__name__
-            try:
-                thr = float(const_value(e.comparators[0]))
-            except ValueError:
-                c = consts.get(unparse(e.comparators[0]))
-                thr = c[0] if c else None
-            ok = arg == Q and op == want_op and thr == AS241['split1']
-        shown = txt.replace(Q, 'q') if arg == Q else txt
-        ctx.add('C11.R3', f'AS241.region.{what}', ok, (f.file, e.lineno), f'{what} form selected by {txt}' + ('' if ok else f'; AS241 selects it by abs(q) {"<=" if want_op == "LtE" else ">"} 0.425 with q = u - 0.5'), detail=shown)
+        r = norm(inline_locals(f.node, e))
+        if r is None:
+            ctx.add('C11.R3', f'AS241.region.{what}', None, (f.file, e.lineno), f'shape not recognised - expected: the {what} form selected by a mask abs(q) {SYM[want_op]} constant (found {txt})', detail=txt)
+            return None
+        call, op, thr_node, thr = r
+        arg = unparse(call.args[0])
+        is_q = arg in (Q, q_def)
+        # the mask in one spelling: abs(ARG) OP threshold (the text by which a known finding is keyed)
+        canon = f'{unparse(call)} {SYM[op]} {unparse(thr_node)}'
+        ok = is_q and op == want_op and thr == AS241['split1']
+        shown = f'{unparse(call.func)}(q) {SYM[op]} {unparse(thr_node)}' if is_q else canon
+        ctx.add('C11.R3', f'AS241.region.{what}', ok, (f.file, e.lineno), f'{what} form selected by {canon}' + ('' if ok else f'; AS241 selects it by abs(q) {"<=" if want_op == "LtE" else ">"} 0.425 with q = u - 0.5'), detail=shown)
         return arg, op, thr
 
     a1 = region('__P1', 'central', 'LtE')
     a2 = region('__P2', 'tails', 'Gt')
-    compl = a1[0] == a2[0] and a1[2] == a2[2] and (a1[1], a2[1]) == ('LtE', 'Gt')
-    ctx.add('C11.R3', 'AS241.region.partition', compl, f, 'central and tail regions are complementary' if compl else 'the central and the tail predicates are not complementary', f'{a1}/{a2}')
+    if a1 is None or a2 is None or a1[0] != a2[0]:
+        # a mask in a form the rule does not read, or the two masks on different quantities: nothing is known about their union
+        compl = None
+    else:
+        compl = a1[2] == a2[2] and FLIP[a1[1]] == a2[1]
+    ctx.add('C11.R3', 'AS241.region.partition', compl, f, 'central and tail regions are complementary' if compl else
+            'the central and the tail predicates are not complementary' if compl is False else 'shape not recognised - expected: the tail mask is the complement of the central mask', f'{a1}/{a2}')
     ctx.floor('C11.R3', 50)
 
 
